@@ -314,6 +314,9 @@ func (k *Keyed[K, V]) resetRoutineLocked(key K, conds ...func(K, V) bool) (exist
 	prevExitedCh := v.exitedCh
 	routine, data := k.ctorCb(key)
 	v = newRunningRoutine(k, key, routine, data, k.backoffFactory)
+	// if the routine is started later (SetContext) it must still wait for
+	// the previous instance to return.
+	v.exitedCh = prevExitedCh
 	k.routines[key] = v
 	if k.ctx != nil {
 		v.start(k.ctx, prevExitedCh, false)
